@@ -81,7 +81,7 @@ def code_fields(ver):
             continue
         if f == "co_exceptiontable" and ver < (3, 11):
             continue
-        if f in ("co_freevars", "co_cellvars") and ver < (2, 0):
+        if f in ("co_freevars", "co_cellvars") and ver < (2, 1):
             continue
         if f in ("co_firstlineno", "co_lnotab", "co_stacksize") and ver < (1, 5):
             continue
